@@ -4,7 +4,10 @@
 // of the archiver (MIME sniffing, spooled body) and the real postprocessItem (extractAssets,
 // shouldExtractOutlinks, extractOutlinks): the children added to the item and the outlink items
 // returned, with their hop counts, are compared with Ext/Post.v; the monitors check the hop counts,
-// the hop limit and that planted URLs arrive in the right place.
+// the hop limit and that planted URLs arrive in the right place.  The document is placed at a generated
+// position of its seed's item tree (0..3 redirections in front of the page, the document being the page, an
+// asset, an asset of an asset or one level deeper, redirections also between page and asset and in front
+// of the document): the "too deep" cut-off of postprocessItem has to count the asset edges only.
 package main
 
 import (
@@ -32,6 +35,11 @@ type PostIn struct {
 	Hops int             `json:"hops"`
 	Max  int             `json:"max"`
 	CT   string          `json:"ct"`
+	// Pos: where the document sits in its seed's item tree - the edges from the seed down to the document,
+	// 'r' = redirection (the parent answered 301 and postprocessItem added the target as its child),
+	// 'c' = asset (the child was added the way postprocessItem adds an asset: AddChild(child, ItemGotChildren)).
+	// "" = the document is the seed itself; "rrc" = seed -301-> -301-> page -> document (an asset of the page).
+	Pos string `json:"pos,omitempty"`
 }
 
 var postTmp string
@@ -39,18 +47,52 @@ var postTmp string
 func init() {
 	register(&Driver{
 		Name:     "docpost",
-		Header:   "From Coq Require Import Uint63.\nFrom ZenoV Require Import Lib.Harness Ext.Pack Ext.FileExt Ext.Json Ext.Xml Ext.M3u8 Ext.Post Ext.ExtHarness.\n",
+		Header:   "From Coq Require Import Uint63.\nFrom ZenoV Require Import Lib.Harness Ext.Pack Ext.FileExt Ext.Json Ext.Xml Ext.M3u8 Ext.Post Ext.PostPos Ext.ExtHarness.\n",
 		CaseType: "pcase",
 		Footer:   "\nDefinition DIFF := Eval vm_compute in pdiffs cases.\nPrint DIFF.\nDefinition MON := Eval vm_compute in pmons cases.\nPrint MON.\n",
-		Rule:     "one case = one well-formed document of the json / xml / m3u8 generators x Content-Type spelling x item hop count 0..3 x --max-hops 0..3, run through archiver.ProcessBody and postprocessItem as a freshly archived seed; distinct by input text; non-trivial when at least one child or outlink is produced",
+		Rule:     "one case = one well-formed document of the json / xml / m3u8 generators x Content-Type spelling x item hop count 0..3 x --max-hops 0..3 x position in the seed's item tree (0..3 redirections before the page, document = page / asset / asset of asset / one deeper, 0..2 redirections before each asset), run through archiver.ProcessBody and postprocessItem as a freshly archived item at that position; distinct by input text; non-trivial when at least one child or outlink is produced",
 		Setup: func() {
 			config.InitConfig()
 			postTmp, _ = os.MkdirTemp("", "zv-c19-post")
 		},
 		Gen:      genPostCase,
 		Exec:     execPostCase,
+		Shrink:   shrinkPostCase,
 		Teardown: func() { os.RemoveAll(postTmp) },
 	})
+}
+
+// genPos draws the position of the document: redirections in front of the page, then 0..3 asset edges each
+// preceded by 0..2 redirections of the asset's URL.  About a third of the cases keep the document as the seed.
+func genPos(r *Rng) string {
+	if r.Intn(3) == 0 {
+		return ""
+	}
+	pos := strings.Repeat("r", r.Intn(4))
+	nc := []int{0, 1, 1, 1, 2, 2, 2, 3}[r.Intn(8)]
+	for k := 0; k < nc; k++ {
+		pos += "c" + strings.Repeat("r", []int{0, 0, 1, 2}[r.Intn(4)])
+	}
+	return pos
+}
+
+// shrinkPostCase: positions with one edge less (the document itself is left as it is)
+func shrinkPostCase(input string) []string {
+	var in PostIn
+	if err := json.Unmarshal([]byte(input), &in); err != nil {
+		return nil
+	}
+	var res []string
+	seen := map[string]bool{in.Pos: true}
+	for k := 0; k < len(in.Pos); k++ {
+		c := in
+		c.Pos = in.Pos[:k] + in.Pos[k+1:]
+		if !seen[c.Pos] {
+			seen[c.Pos] = true
+			res = append(res, mustJSON(&c))
+		}
+	}
+	return res
 }
 
 func genPostCase(r *Rng, i int, tier string) string {
@@ -82,7 +124,20 @@ func genPostCase(r *Rng, i int, tier string) string {
 		in.In = json.RawMessage(mustJSON(&m))
 		in.CT = pick(r, []string{"application/vnd.apple.mpegurl", "application/x-mpegURL", "Application/VND.Apple.MpegURL; charset=utf-8"})
 	}
+	in.Pos = genPos(r)
 	return mustJSON(&in)
+}
+
+// ancestorURL: the URL of node k on the path from the seed (k = 0) to the document (k = len(pos)); the
+// document keeps the URL the seed-only cases use, the ancestors get distinct URLs on other hosts
+func ancestorURL(k int, pos string, docURL string) string {
+	if k == len(pos) {
+		return docURL
+	}
+	if pos[k] == 'r' {
+		return fmt.Sprintf("http://hop%d.example/moved/%d", k, k)
+	}
+	return fmt.Sprintf("https://page%d.example/embed/%d", k, k)
 }
 
 func coqPairs(l [][2]string) string {
@@ -179,10 +234,13 @@ func execPostCase(input string) Result {
 	cf := config.Get()
 	cf.MaxHops = in.Max
 	cf.DisableAssetsCapture = false
+	cf.MaxRedirect = 20
 	domainscrawl.Reset()
 
 	var children, outlinks [][2]string
-	bodyKept := false
+	bodyKept, html := false, false
+	var depth, dwr int64
+	var ancestors []*models.Item
 	self := ""
 	panicked := ""
 	func() {
@@ -191,7 +249,54 @@ func execPostCase(input string) Result {
 				panicked = fmt.Sprint(e)
 			}
 		}()
-		u := &models.URL{Raw: reqURL, Hops: in.Hops}
+		// the ancestors of the document, seed first: a redirection edge is made by the real postprocessItem
+		// on a 301 answer, an asset edge by the call postprocessItem makes for every asset it extracted
+		var seed, cur *models.Item
+		attach := func(raw string) *models.Item {
+			nu := &models.URL{Raw: raw, Hops: in.Hops}
+			if seed == nil {
+				seed = models.NewItem("c19-item", nu, "")
+				return seed
+			}
+			ch := models.NewItem(fmt.Sprintf("c19-item-%d", len(ancestors)), nu, "")
+			if err := cur.AddChild(ch, models.ItemGotChildren); err != nil {
+				panic("AddChild: " + err.Error())
+			}
+			return ch
+		}
+		next := attach(ancestorURL(0, in.Pos, reqURL))
+		for k, e := range []byte(in.Pos) {
+			cur = next
+			ancestors = append(ancestors, cur)
+			target := ancestorURL(k+1, in.Pos, reqURL)
+			switch e {
+			case 'r':
+				if err := preprocessor.NormalizeURL(cur.GetURL(), nil); err != nil {
+					panic("ancestor URL rejected: " + err.Error())
+				}
+				h := http.Header{}
+				h.Set("Location", target)
+				cur.GetURL().SetResponse(&http.Response{StatusCode: 301, Header: h, Body: io.NopCloser(strings.NewReader(""))})
+				cur.SetStatus(models.ItemArchived)
+				if o := postprocessor.VerifC19PostprocessItem(cur); len(o) != 0 {
+					panic("a redirection produced outlinks")
+				}
+				got := cur.GetChildren()
+				if len(got) != 1 || cur.GetStatus() != models.ItemGotRedirected || got[0].GetURL().Raw != target {
+					panic("the redirection was not followed")
+				}
+				next = got[0]
+			case 'c':
+				next = attach(target)
+			default:
+				panic("bad position letter")
+			}
+		}
+		item := next
+		u := item.GetURL()
+		if u.GetHops() != in.Hops {
+			panic("hop count not carried to the document")
+		}
 		if err := preprocessor.NormalizeURL(u, nil); err != nil {
 			panic("page URL rejected: " + err.Error())
 		}
@@ -206,8 +311,11 @@ func execPostCase(input string) Result {
 			defer u.GetBody().Close()
 		}
 		self = u.String()
-		item := models.NewItem("c19-item", u, "")
+		if mt := u.GetMIMEType(); mt != nil {
+			html = strings.Contains(mt.String(), "html")
+		}
 		item.SetStatus(models.ItemArchived)
+		depth, dwr = item.GetDepth(), item.GetDepthWithoutRedirections()
 		outItems := postprocessor.VerifC19PostprocessItem(item)
 		for _, ch := range item.GetChildren() {
 			children = append(children, [2]string{ch.GetURL().Raw, fmt.Sprint(ch.GetURL().GetHops())})
@@ -234,7 +342,26 @@ func execPostCase(input string) Result {
 	} else {
 		tags = append(tags, "hops>=max")
 	}
-	term := fmt.Sprintf("PC (PIn %s %d%%N %d%%N %s %s %s) %s %s %s %s", docTerm, in.Hops, in.Max, coqBool(bodyKept), coqS(self), coqSList(textLinks),
-		coqSList(kids), coqSList(outs), coqPairs(children), coqPairs(outlinks))
+	nchild := strings.Count(in.Pos, "c")
+	tags = append(tags, fmt.Sprintf("redirections:%d", len(in.Pos)-nchild), fmt.Sprintf("asset-depth:%d", nchild))
+	if len(in.Pos) > 2 && nchild <= 2 {
+		tags = append(tags, "depth>2-only-with-redirections")
+	}
+	if html {
+		tags = append(tags, "html-sniffed")
+	}
+	if depth < 0 || dwr < 0 {
+		depth, dwr = 999, 999 // never: the document is not a redirection
+	}
+	edges := make([]string, len(in.Pos))
+	for k, e := range []byte(in.Pos) {
+		if e == 'r' {
+			edges[k] = "ERedir"
+		} else {
+			edges[k] = "EChild"
+		}
+	}
+	term := fmt.Sprintf("PC (PIn %s %d%%N %d%%N %s %s %s) %s %s %s %s (%d%%N, %d%%N) %s %s", docTerm, in.Hops, in.Max, coqBool(bodyKept), coqS(self), coqSList(textLinks),
+		coqList(edges), coqBool(html), coqSList(kids), coqSList(outs), depth, dwr, coqPairs(children), coqPairs(outlinks))
 	return Result{Term: term, Tags: tags, Nontrivial: len(children)+len(outlinks) > 0}
 }
